@@ -171,6 +171,6 @@ func init() {
 	})
 	Plans["C07"] = map[string][]Step{
 		"quick":    {{Tier: "affinity", Size: 0, Bound: 1}},
-		"thorough": {{Tier: "affinity", Size: 1, Bound: 1, Bound2: true}},
+		"thorough": {{Tier: "affinity", Size: 1, Bound: 1}},
 	}
 }
